@@ -59,7 +59,7 @@ func internKey(k poolKey) int {
 		}
 	}
 	if i, ok := poolIndexMap[k.s]; ok {
-		if pool[i].kind != k.kind || (k.kind == kNumber && pool[i].num != k.num) || ((k.kind == kWeekday || k.kind == kMonth) && pool[i].pos != k.pos) {
+		if pool[i].kind != k.kind || (k.kind == kNumber && pool[i].num != k.num) || ((k.kind == kWeekday || k.kind == kMonth) && pool[i].pos != k.pos) || (k.kind == kDate && (pool[i].hasInst != k.hasInst || pool[i].sec != k.sec || pool[i].ns != k.ns)) {
 			panic("harness: pool disagrees about " + k.s)
 		}
 		return i
@@ -132,6 +132,15 @@ func buildSizeClasses() []sizeClass {
 	})
 	gen("us-dates", []string{"date"}, 4097, sizeMaxQuick, 4097, func(i int) poolKey {
 		return poolKey{s: base.AddDate(0, 0, 3*i).Format("01/02/2006"), kind: kDate, layout: "us", day: 3 * i}
+	})
+	// timestamps of one layout, 37 ms apart (27 keys per second) / one wall clock under offsets +14:00, +13:59, ...
+	// (one minute apart, in the opposite order of the text)
+	gen("iso-ms-datetimes", []string{"date"}, 1025, 257, 1025, func(i int) poolKey {
+		t := i * 37
+		return stampKey("iso-ms", stamp{Y: 2022, M: 3, D: 4, h: 10, m: t / 60000, s: t / 1000 % 60, ns: t % 1000 * ms})
+	})
+	gen("offset-datetimes", []string{"date"}, 1025, 257, 1025, func(i int) poolKey {
+		return stampKey("iso-offset", stamp{Y: 2022, M: 3, D: 4, h: 10, off: 840 - i})
 	})
 	// weekday / month names: full name and abbreviation in three letter cases,
 	// element j = (form j/7, day j%7): the first 7 are one spelling of each day
